@@ -743,6 +743,86 @@ theorem keyInv_kill (k : ShmKey) (s : SegId) (L : Nat) (g : G) (p : Pid) (hK : K
       show FdNot (g.kill p) s (g.pidOf t) fd
       simp only [FdNot, procsNe _ hne]; exact this
 
+/-! ### a scripted failure of the next system call: the OS is untouched, a follower in flight moves to its failure path -/
+
+theorem followerOK_after_err (g : G) (s : SegId) (L : Nat) (p : Pid) (st st' : ShmNewSt) (e : Errno)
+    (hwf : st.wf) (h : FollowerOK g s L p st) (ha : st.after (.err e) = .cont st') : FollowerOK g s L p st' := by
+  obtain ⟨key, req, ro, created, isExists, size, addr, pc⟩ := st
+  obtain ⟨hcr, h2⟩ := h
+  obtain ⟨_, _, h3⟩ := hwf
+  simp only at hcr; subst hcr
+  cases pc with
+  | sem s0 =>
+    simp only [ShmNewSt.after] at ha
+    split at ha
+    · simp only [Out.cont.injEq] at ha; subst ha; exact ⟨rfl, h2⟩
+    · simp at ha
+    · simp only [ShmNewSt.cleanFrom] at ha
+      (repeat' split at ha) <;> simp only [Out.cont.injEq, reduceCtorEq] at ha <;> (try subst ha) <;>
+        first | exact ⟨rfl, h2⟩ | simp_all
+  | _ =>
+    simp only at h3
+    cases e <;>
+      simp only [ShmNewSt.after, ShmNewSt.cleanFrom, shmOpen1Retry, shmOpen2Retry, if_true, Out.cont.injEq, reduceCtorEq] at ha <;>
+      (try (repeat' split at ha)) <;> (try simp only [Out.cont.injEq, reduceCtorEq] at ha) <;> (try subst ha) <;>
+      simp_all [FollowerOK]
+
+theorem keyInv_fail (k : ShmKey) (s : SegId) (L : Nat) (g : G) (t : Tid) (e : Errno) (hM : MapInv g) (hK : KeyInv k s L g) :
+    KeyInv k s L (g.fail t e) := by
+  cases hc : g.calls t with
+  | none => rw [fail_none g t e hc]; exact hK
+  | some c =>
+    have hos := fail_os g t e
+    have hFo : ∀ p st, FollowerOK g s L p st → FollowerOK (g.fail t e) s L p st := by
+      intro p st h; simpa only [FollowerOK, FdOf, GoodMap, hos] using h
+    refine ⟨by rw [hos]; exact hK.bound, by rw [hos]; exact hK.len, hK.pos, by rw [hos]; exact hK.segLt, ?_, ?_, ?_⟩
+    · intro h' p y hy hky
+      rw [fail_hs] at hy
+      have := hK.handles h' p y hy hky
+      simpa only [GoodMap, hos] using this
+    · intro t' hid' st' hc' hkey'
+      rw [fail_pidOf]
+      by_cases e' : t' = t
+      · subst e'
+        rw [fail_calls_self g t' e c hc] at hc'
+        split at hc'
+        · rename_i c' hcont
+          simp only [Option.some.injEq] at hc'
+          subst hc'
+          cases c with
+          | shmNew hid st =>
+            obtain ⟨st'', e'', ha⟩ := call_after_cont_shmNew hid st _ _ hcont
+            simp only [Call.shmNew.injEq] at e''
+            obtain ⟨_, rfl⟩ := e''
+            have hk0 : st.key = k := by rw [← (shmNew_after_key st st' _ ha).1]; exact hkey'
+            exact hFo _ _ (followerOK_after_err g s L _ st st' e (hM.newwf t' hid st hc) (hK.flight t' hid st hc hk0) ha)
+          | _ => exact absurd rfl (call_after_cont_not_shmNew _ _ _ hcont (by intro a b; simp) hid' st')
+        · cases hc'
+      · rw [fail_calls_other g t e t' e'] at hc'
+        exact hFo _ _ (hK.flight t' hid' st' hc' hkey')
+    · intro t' hid' st' fd' hc' hpc'
+      rw [fail_pidOf]
+      have hFn : ∀ p fd, FdNot g s p fd → FdNot (g.fail t e) s p fd := by
+        intro p fd h; simpa only [FdNot, hos] using h
+      by_cases e' : t' = t
+      · subst e'
+        rw [fail_calls_self g t' e c hc] at hc'
+        split at hc'
+        · rename_i c' hcont
+          simp only [Option.some.injEq] at hc'
+          subst hc'
+          cases c with
+          | shmNew hid st =>
+            obtain ⟨st'', e'', ha⟩ := call_after_cont_shmNew hid st _ _ hcont
+            simp only [Call.shmNew.injEq] at e''
+            obtain ⟨_, rfl⟩ := e''
+            obtain ⟨_, hr⟩ := shmNew_to_ftrunc st st' _ fd' ha hpc'
+            cases hr
+          | _ => exact absurd rfl (call_after_cont_not_shmNew _ _ _ hcont (by intro a b; simp) hid' st')
+        · cases hc'
+      · rw [fail_calls_other g t e t' e'] at hc'
+        exact hFn _ _ (hK.noTrunc t' hid' st' fd' hc' hpc')
+
 /-- **the segment of `k` exists**: `MapInv ∧ KeyInv` is preserved by every schedule without a `shm_unlink (k)` -/
 theorem keyInv_execAll (k : ShmKey) (s : SegId) (L : Nat) (as : List Action) :
     ∀ g, MapInv g → KeyInv k s L g → NoShmUnlink k g as → MapInv (execAll g as) ∧ KeyInv k s L (execAll g as) := by
@@ -756,6 +836,7 @@ theorem keyInv_execAll (k : ShmKey) (s : SegId) (L : Nat) (as : List Action) :
     | start t op => exact keyInv_start k s L g t op hK
     | kill p => exact keyInv_kill k s L g p hK
     | step t i => exact keyInv_step k s L g t i hM hK hq.1
+    | fail t e => exact keyInv_fail k s L g t e hM hK
 
 /-! ## consequences for live handles, in any state satisfying the invariants -/
 
@@ -990,8 +1071,37 @@ theorem sysStep_shmOpen_ok_fd (p : Pid) (i : Bool) (k : ShmKey) (fl m : Nat) (os
     simp only [shmOpenF, OS.setProc] at h ⊢
     (repeat' split at h) <;> (repeat' split) <;> simp_all <;> omega
 
+theorem segWF_fail (g : G) (t : Tid) (e : Errno) (h : SegWF g) : SegWF (g.fail t e) := by
+  cases hc : g.calls t with
+  | none => rw [fail_none g t e hc]; exact h
+  | some c =>
+    have hos := fail_os g t e
+    refine ⟨by rw [hos]; exact h.names, by rw [hos]; exact h.fdsSeg, ?_⟩
+    intro t' hid' st' fd' hc' hfd'
+    rw [fail_pidOf, hos]
+    by_cases e' : t' = t
+    · subst e'
+      rw [fail_calls_self g t' e c hc] at hc'
+      split at hc'
+      · rename_i c' hcont
+        simp only [Option.some.injEq] at hc'
+        subst hc'
+        cases c with
+        | shmNew hid st =>
+          obtain ⟨st'', e'', ha⟩ := call_after_cont_shmNew hid st _ _ hcont
+          simp only [Call.shmNew.injEq] at e''
+          obtain ⟨_, rfl⟩ := e''
+          rcases shmNew_fd_after st st' _ fd' ha hfd' with h0 | ⟨_, hr⟩
+          · exact h.flightFd t' hid st fd' hc h0
+          · cases hr
+        | _ => exact absurd rfl (call_after_cont_not_shmNew _ _ _ hcont (by intro a b; simp) hid' st')
+      · cases hc'
+    · rw [fail_calls_other g t e t' e'] at hc'
+      exact h.flightFd t' hid' st' fd' hc' hfd'
+
 theorem segWF_exec (g : G) (a : Action) (h : SegWF g) : SegWF (exec g a) := by
   cases a with
+  | fail t e => exact segWF_fail g t e h
   | start t op =>
     simp only [exec]
     have hp := start_procs g t op
